@@ -249,6 +249,14 @@ C(f"{F}:Parser._append_node_or_token", params={"self": "obj:Parser", "tree": f"o
       "implies(is_none(tree) and not isinstance(cmd, TokenInfo), result is cmd)",
   ], raises=[], pure=True, properties=["C04", "C06"])
 
+# ---------------------------------------------------------------------------------------------- literal values (C01, C11)
+# the value is what ast.literal_eval gives the token's text; an error OF THE LITERAL (bad escape, non-ASCII bytes, ...) is re-raised as a
+# located error of this parser at the token (C11) -- literal_eval's own exception, whose coordinates are relative to the text, never escapes
+C(f"{F}:Parser.literal_eval", params={"self": "obj:Parser", "token": "Tok"}, returns="lit",
+  requires=TKW + ["tok_wf(token)"],
+  ensures=["lit_val(result) == le_val(token.string)", "lit_isbytes(result) == le_isbytes(token.string)", *TKW],
+  raises=["SyntaxError"], may_raise=["SyntaxError"], raises_ensures=[WF], modifies=ERRMOD, properties=["C01", "C11", "C03"])
+
 # ---------------------------------------------------------------------------------------------- implicit concatenation of plain literals (C01, C02)
 MIX = "any(le_isbytes(parts[j].string) != le_isbytes(parts[0].string) for j in range(1, len(parts)))"
 C(f"{F}:Parser._concat_strings_in_constant", params={"self": "obj:Parser", "parts": "seq[Tok]"}, returns="obj:ast.Constant#lit",
@@ -256,7 +264,7 @@ C(f"{F}:Parser._concat_strings_in_constant", params={"self": "obj:Parser", "part
   requires_assumed={"pos_le(parts[0].start, parts[len(parts) - 1].end)": "C08: tokens appear in non-decreasing position order"},
   witness={MIX: {"j": "1 + _i"}}, modifies=ERRMOD,
   loops={0: {"inv": TKW + ["lit_isbytes(s) == le_isbytes(parts[0].string)", "all(le_isbytes(parts[j].string) == le_isbytes(parts[0].string) for j in range(1, 1 + _i))",
-                     "lit_val(s) == lit_fold(parts, 1 + _i)"],
+                     "lit_val(s) == lit_fold(parts, 1 + _i)", "implies(1 + _i < len(parts), tok_wf(parts[1 + _i]))"],
              "types": {"s": "lit", "part": "lit", "ss": "Tok"}}},
   ensures=[
       # C01: one Constant spanning from the first literal's start to the last literal's end ...
@@ -270,7 +278,7 @@ C(f"{F}:Parser._concat_strings_in_constant", params={"self": "obj:Parser", "part
       # C02: str and bytes pieces are never mixed in an accepted literal
       f"not ({MIX})",
   ],
-  raises_when={"SyntaxError": MIX}, raises=["SyntaxError"], properties=["C01", "C02", "C10"])
+  raises=["SyntaxError"], raises_ensures=[WF], properties=["C01", "C02", "C10", "C11"])
 
 # ---------------------------------------------------------------------------------------------- xonsh expression builders (C05): the tree IS the documented translation
 LOCS = {"lineno": "int", "col_offset": "int", "end_lineno": "int", "end_col_offset": "int"}
@@ -441,10 +449,10 @@ C(f"{F}:Parser.concatenate_strings", params={"self": "obj:Parser#strings", "part
 C(f"{F}:Parser._decode_fstring_parts", params={"self": "obj:Parser#strings", "parts": "abslist[obj:StrPart]"}, verify=False,
   why_assumed="recursion over nested format specs and re.sub with a callback are outside the executor's subset; escape decoding of literal text is "
               "covered by the C10 stand-in (escape-in-literal classes)",
-  ensures=[], raises=[], modifies=[], properties=["C10"])
+  ensures=[], raises=["SyntaxError"], may_raise=["SyntaxError"], raises_ensures=[WF], modifies=ERRMOD, properties=["C10"])
 C(f"{F}:Parser.handle_fstring", params={"self": "obj:Parser#strings", "a": "Tok", "b": "abslist[obj:StrPart]", **LOCS},
   ensures=["isinstance(result, ast.JoinedStr) and result.values is b", f"all_located(result, {LOCARGS})",
            "implies(has_p_prefix(a.string), not is_none(self._path_token) and self._path_token.string == strip_p(a.string) and self._path_token.start == a.start "
            "and self._path_token.end == a.end and self._path_owner is result)",
            "implies(not has_p_prefix(a.string), self._path_token == old(self._path_token) and self._path_owner is old(self._path_owner))"],
-  raises=[], modifies=["self._path_token", "self._path_owner"], properties=["C10", "C14", "C05"])
+  raises=["SyntaxError"], raises_ensures=[WF], modifies=ERRMOD + ["self._path_token", "self._path_owner"], properties=["C10", "C14", "C05"])
